@@ -8,43 +8,43 @@ CLAIMED = {
    note="Trusted: the terminal actor (stub of term::main_loop) respects the documented calling protocol; fuel ticks (hook H3) cover the hand-written loops; debug assertions and overflow checks are on as in the repository's test profile.",
    tech="deterministic simulation: seeded hostile sessions with interrupt/snapshot/overlong-input fault injection, crash+hang containment, canary"),
  "C13": dict(cat="fault_enumeration", ref="DESIGN.md section 5 C13",
-   text="For each seeded program the interrupt instant is enumerated over EVERY VM instruction of the run, every INPUT wait and every after-reply instant (interrupt + optional inspection line + CONT), STOP and END are inserted at every top-level statement boundary, and seven quantum schedules are compared event-for-event; oracle is the uninterrupted run of the same program. Complete over crash points per sampled program, sampled over programs.",
+   text="For each seeded program the interrupt instant is enumerated over EVERY VM instruction of the run, every INPUT wait, every after-reply instant and every instant between two lines of a LIST statement (interrupt + optional inspection line + CONT), STOP and END are inserted at every top-level statement boundary, seven quantum schedules are compared event-for-event, and 1 in 400 evaluations is a GOSUB recursion 65 504+ frames deep with an INPUT at the bottom; oracle is the uninterrupted run of the same program. Complete over crash points per sampled program, sampled over programs.",
    note="Trusted: the normaliser that removes the ?BREAK report, the line break it forces and the prompts (terminal model + probe hook H4 to tell forced from printed line breaks). TRON, interrupts landing in the direct RUN line, and column-sensitive items after a mid-line break are not judged.",
    tech="deterministic simulation: exhaustive interrupt-point / STOP-END-placement enumeration per seeded program, self-differential against the uninterrupted run, seeded quantum schedules"),
  "C04": dict(cat="exploration", ref="DESIGN.md section 5 C04",
-   text="Seeded search over edit histories (insert/replace/delete/absent-delete, DELETE ranges, RENUM, NEW, SimDisk load, harmless direct statements) around runs stopped by an injected interrupt, STOP, END or an error inside loops and subroutines, ending in RUN / RUN n / CONT / RETURN / NEXT; the oracle is a fresh twin Runtime fed get_listing() text with entropy aligned. Needs no semantic model, so it cannot raise model-induced alarms; a clean batch is evidence over the sampled histories.",
+   text="Seeded search over edit histories (insert/replace/delete/absent-delete, DELETE ranges, RENUM, NEW, SimDisk load, a host-initiated load arriving k instructions into a run, program lines that DELETE / NEW / LOAD / RUN "file" when executed, harmless direct statements) around runs stopped by an injected interrupt, STOP, END or an error inside loops and subroutines, ending in RUN / RUN n / CONT / RETURN / NEXT / a direct call of a user function; the oracle is a fresh twin Runtime fed get_listing() text with entropy aligned. Needs no semantic model, so it cannot raise model-induced alarms; a clean batch is evidence over the sampled histories.",
    note="Trusted: token-stream normaliser (prompt and forced line breaks removed). CONT/RETURN/NEXT without an edit since the last stop are legitimate and not judged; cases whose listing is not a fixed point (C05) are discarded.",
    tech="deterministic simulation: seeded edit histories with interrupt-stopped runs, fresh-twin differential oracle"),
  "C12": dict(cat="exploration", ref="DESIGN.md section 5 C12",
-   text="Seeded search over session prefixes (programs run to completion / planted error / STOP / Ctrl-C at a seeded instruction, direct statements leaving variables, arrays, DEFtype, DATA position, FOR/GOSUB frames, pending INPUT, RND draws) followed by RUN of another program, RUN again, CLEAR + probe lines, or NEW + probe lines + LIST; every line is compared with a fresh twin Runtime, entropy aligned.",
+   text="Seeded search over session prefixes (programs run to completion / planted error / STOP / Ctrl-C at a seeded instruction, direct statements leaving variables, arrays, DEFtype, DATA position, FOR/GOSUB frames, pending INPUT, RND draws) followed by RUN of another program, RUN again, CLEAR + probe lines, or NEW + probe lines + LIST (25% with a get_listing() snapshot held across the reset); 5%: a program restarting itself with RUN from inside GOSUB / FOR / WHILE, compared from the restart on with RUN on a fresh runtime plus stray RETURN / NEXT / CONT probes; every line is compared with a fresh twin Runtime, entropy aligned.",
    note="Trusted: token-stream normaliser; TRON is switched off at the end of the prefix because the manual lets tracing persist across RUN.",
    tech="deterministic simulation: seeded session prefixes with injected interrupts and failing statements, fresh-twin differential oracle"),
  "C15": dict(cat="exploration", ref="DESIGN.md section 5 C15",
-   text="Seeded edit / LIST / DELETE / TAB-lookup histories over a small universe of line numbers, with Ctrl-C after the j-th listed line and get_listing() snapshots held across edits; an ordered-map model is compared with the real listing after every operation and with every LIST transcript; held snapshots must keep rendering what they rendered when taken.",
+   text="Seeded edit / LIST / DELETE / NEW / LOAD / TAB-lookup histories over a small universe of line numbers, with Ctrl-C after the j-th listed line (also for a LIST statement stored in the program, followed by a direct LIST and CONT), LIST typed with the cursor mid-line, and get_listing() snapshots held across edits; an ordered-map model is compared with the real listing after every operation and with every LIST transcript; held snapshots must keep rendering what they rendered when taken.",
    note="Trusted: the 40-line map model. Whole-program ranges written explicitly for DELETE (0-65529 and equivalents) are not judged.",
    tech="deterministic simulation: seeded histories against an ordered-map reference model, LIST interrupted mid-way, live-snapshot fault"),
  "C01": dict(cat="exploration", ref="DESIGN.md section 5 C01, section 4.1, appendix B",
-   text="Seeded search over generated programs of the well-defined fragment and typed sessions (direct statements, RUN / RUN n / GOTO n, CONT after STOP/END, replies synthesised per INPUT) executed on the real VM under seven seeded quantum distributions; the full screen transcript of every typed line (output, prompts, REDO, trace tokens, error code and line, READY) is compared with RefBASIC, an independent reference interpreter over the generator's own AST. Evidence over the sampled programs, not proof; defects outside the generated fragment are invisible.",
+   text="Seeded search over generated programs of the well-defined fragment and typed sessions (direct statements, RUN / RUN n / GOTO n, CONT after STOP/END, replies synthesised per INPUT) (also with tracing switched on at the prompt and left on over several RUN / RUN n / GOTO n / GOSUB n commands) executed on the real VM under seven seeded quantum distributions; programs include NEXT lists, code-less landing pads behind the final END, END inside IF branches, ON.. out of range as last statement and self-restart by RUN; 0.4% of the evaluations run C13's interrupt + CONT enumeration over such a program; the full screen transcript of every typed line (output, prompts, REDO, trace tokens, error code and line, READY) is compared with RefBASIC, an independent reference interpreter over the generator's own AST. Evidence over the sampled programs, not proof; defects outside the generated fragment are invisible.",
    note="Trusted: RefBASIC (rules of DESIGN.md appendix B, taken from the manual and the property statements) and the renderer; grey zones set the model's grey flag and discard the case (counted in the evidence).",
    tech="deterministic simulation: seeded programs and sessions under seeded slice schedules, refinement check against an executable reference model (RefBASIC)"),
  "C06": dict(cat="exploration", ref="DESIGN.md section 5 C06",
-   text="Seeded direct-mode sessions of store operations (typed LET incl. failing ones, DIM / ERASE / implicit dimensioning with boundary subscripts, DEFtype on ranges, SWAP same-typed and mixed, FOR, INPUT, MID$ assignment, CLEAR, RUN) over a universe of colliding names; after every operation a probe line reads back the touched names and a sample of others and is compared with RefBASIC's typed map.",
+   text="Seeded direct-mode sessions of store operations (typed LET incl. failing ones, DIM / ERASE / implicit dimensioning with boundary subscripts, DEFtype on ranges, SWAP same-typed and mixed, FOR, INPUT, MID$ assignment, CLEAR, RUN) over a universe of colliding names; after every operation a probe line reads back the touched names and a sample of others and is compared with RefBASIC's typed map; 6%: a mixed-type SWAP or another failing store inside a stored program, RUN, probe, CONT, probe (a rejected SWAP leaves both operands unchanged for good).",
    note="Trusted: RefBASIC's store model. Within one evaluation a base name is spelled either always with or always without a type suffix (whether A and A! are one variable is not settled by the manual). Interrupts inside SWAP / MID$= are enumerated by C13, pool exhaustion by C18.",
    tech="deterministic simulation: seeded operation sequences with failing statements against a typed map reference model, read back after every step"),
  "C09": dict(cat="exploration", ref="DESIGN.md section 5 C09",
-   text="Seeded programs with DATA lines anywhere (also in never-executed IF branches), READ lists of every type, RESTORE / RESTORE n to arbitrary lines, and sessions mixing RUN, direct-mode READ/RESTORE, edits that insert/change/delete DATA lines, CLEAR and STOP + READ + CONT; every typed line is compared with RefBASIC's data-pointer model.",
+   text="Seeded programs with DATA lines anywhere (also in never-executed IF branches), READ lists of every type, RESTORE / RESTORE n to arbitrary lines, and sessions mixing RUN, direct-mode READ/RESTORE, edits that insert/change/delete DATA lines, CLEAR, STOP + READ + CONT, valid RENUM commands, DATA typed as a direct statement; members: READs followed by a run that dies of pool exhaustion and a direct READ; C13's interrupt + CONT enumeration over READ-heavy programs; every typed line is compared with RefBASIC's data-pointer model.",
    note="Trusted: RefBASIC. The DATA position right after an edit is a grey zone (READ there discards the case).",
    tech="deterministic simulation: seeded programs and edit/run histories against RefBASIC's data-pointer model"),
  "C10": dict(cat="exploration", ref="DESIGN.md section 5 C10",
-   text="Seeded programs over-sampling DEF FN (1-3 typed parameters named like program variables, bodies reading globals and calling earlier functions, calls inside PRINT lists, subscripts, FOR headers, IF predicates, ON selectors, arguments; planted wrong-arity and undefined calls) with sessions calling the functions from direct mode after globals changed, DEF in direct mode, CLEAR, CONT; judged by RefBASIC. 2% of the evaluations are runaway recursion programs that must end in ?OUT OF MEMORY with canary, intact listing and a fresh program running normally afterwards.",
+   text="Seeded programs over-sampling DEF FN (1-3 typed parameters named like program variables, bodies reading globals and calling earlier functions, calls inside PRINT lists, subscripts, FOR headers, IF predicates, ON selectors, arguments; planted wrong-arity and undefined calls) with sessions calling the functions from direct mode after globals changed, DEF in direct mode, CLEAR, DELETE of a line (functions are gone until their DEF executes again), CONT; functions whose names differ only in the type sigil and functions defined again mid-program with calls before and after on one line; judged by RefBASIC. 2% of the evaluations are runaway recursion programs that must end in ?OUT OF MEMORY with canary, intact listing and a fresh program running normally afterwards.",
    note="Trusted: RefBASIC (parameters in a local frame). Line attribution of errors raised inside function bodies, calls after edits and calls under TRON are grey zones.",
    tech="deterministic simulation: seeded programs and sessions against RefBASIC, pool-exhaustion fault (runaway recursion) with canary"),
  "C11": dict(cat="exploration", ref="DESIGN.md section 5 C11, section 4.3",
-   text="Seeded programs and direct lines over-sampling PRINT lists (strings incl. multi-byte and embedded line feeds, numbers of each type, TAB around column/zone boundaries and +-255, SPC, POS, separators, trailing separators) interleaved with TRON, INPUT, planted errors and STOP with the cursor mid-line, LIST between prints, CONT. RefBASIC lays out from the simulated terminal's true cursor column; transcripts must be identical. The column clause is decided by simulation (two parties: terminal cursor vs the VM's belief); number formatting only for the generated values.",
+   text="Seeded programs and direct lines over-sampling PRINT lists (strings incl. multi-byte and embedded line feeds, numbers of each type, TAB around column/zone boundaries and +-255, SPC, POS, separators, trailing separators) interleaved with TRON, INPUT, planted errors and STOP with the cursor mid-line, LIST between prints, keyboard polls between items, CONT; members: a program chaining with RUN "file" while the cursor is mid-line (twin), C13's interrupt + CONT enumeration over PRINT-heavy programs with the world invariant that a ?BREAK report arrives at column 0. RefBASIC lays out from the simulated terminal's true cursor column; transcripts must be identical. The column clause is decided by simulation (two parties: terminal cursor vs the VM's belief); number formatting only for the generated values.",
    note="Trusted: the terminal model's cursor rule and RefBASIC's PRINT rules. The for-all-floats formatting clause is a pure function and is not claimed.",
    tech="deterministic simulation: terminal-cursor model vs VM column bookkeeping across Print/Input/Errors/List/trace/BREAK events, RefBASIC layout oracle"),
  "C17": dict(cat="exploration", ref="DESIGN.md section 5 C17",
-   text="Seeded programs over-sampling INPUT (prompt / no prompt / leading comma, 1-5 targets of every type, array targets subscripted by earlier targets, in loops, subroutines, IF branches and direct mode) answered by synthesised replies of clearly valid, clearly invalid and structurally wrong classes with up to two bad replies before an accepted one; the request / REDO / request protocol, the caps flag and everything printed afterwards are compared with RefBASIC's reply model.",
+   text="Seeded programs over-sampling INPUT (prompt / no prompt / leading comma, 1-5 targets of every type, array targets subscripted by earlier targets, in loops, subroutines, IF branches and direct mode) answered by synthesised replies of clearly valid, clearly invalid and structurally wrong classes (incl. over-long ones, hex digits D and E, non-ASCII text) with up to two bad replies before an accepted one; targets whose type comes from DEFtype; 0.5%: C13's interrupt + CONT enumeration in every protocol state; the request / REDO / request protocol, the caps flag and everything printed afterwards are compared with RefBASIC's reply model.",
    note="Trusted: RefBASIC's reply grammar; grey-zone spellings are never generated. Interrupts in each protocol state are enumerated by C13.",
    tech="deterministic simulation: request/retry protocol between VM and simulated terminal with hostile replies, reference reply model"),
  "C20": dict(cat="exploration", ref="DESIGN.md section 5 C20",
@@ -56,7 +56,7 @@ CLAIMED = {
    note="Trusted: the AST renderer and the 25-line model renumbering. A refused triple that the manual makes valid is counted, not reported (the property allows failing).",
    tech="deterministic simulation: seeded RENUM transactions with failing argument triples and live-snapshot fault, model renumbering + twin-runtime behavioural equivalence"),
  "C19": dict(cat="exploration", ref="DESIGN.md section 5 C19",
-   text="Seeded sessions: a clean generated program is typed, optionally run to its end or to an injected Ctrl-C (leaving FOR/GOSUB frames, a CONT point and defined user functions), then damaged by typed edits (dangling reference in each of nine referencing forms, stray WHILE / WEND, token-level syntax damage, on new lines or in front of existing lines, with ASCII and multi-byte statements before the fault), then with tracing on one of 13 doors into the program is tried (RUN, RUN n, GOTO n, GOSUB n, ON..GOTO, ON..GOSUB, IF..THEN n, FOR..GOSUB..NEXT, CONT, RETURN, NEXT, a direct call of a user function, load-and-run from the SimDisk), optionally followed by CONT. Invariants: every diagnostic names a listed line and a character range inside its listed text, UNDEFINED LINE ranges spell exactly a missing number, WHILE/WEND ranges the keyword, LIST underlines exactly the reported ranges, every planted fault is reported; through the door no trace token, output, prompt or variable change; harmless direct statements still work.",
+   text="Seeded sessions: a clean generated program is typed, optionally run to its end or to an injected Ctrl-C (leaving FOR/GOSUB frames, a CONT point and defined user functions), then damaged by typed edits (dangling reference in each of nine referencing forms, stray WHILE / WEND, token-level syntax damage, on new lines or in front of existing lines, with ASCII and multi-byte statements before the fault), then with tracing on one of 13 doors into the program is tried (RUN, RUN n, GOTO n, GOSUB n, ON..GOTO, ON..GOSUB, IF..THEN n, FOR..GOSUB..NEXT, CONT, RETURN, NEXT, a direct call of a user function, load-and-run from the SimDisk), optionally typed behind `PRINT "X";:` and optionally followed by CONT; 6% of the programs damage themselves (their first line DELETEs the target of a later GOTO). Invariants: every diagnostic names a listed line and a character range inside its listed text, UNDEFINED LINE ranges spell exactly a missing number, WHILE/WEND ranges the keyword, LIST underlines exactly the reported ranges, every planted fault is reported; through the door no trace token, output, prompt or variable change; harmless direct statements still work.",
    note="Trusted: the damage placement (faults only added, never by modifying existing statements, so the planted set is the expected set). An empty range at the end of a line counts as inside it. The value of a direct FN call is not judged here.",
    tech="deterministic simulation: seeded edit/run/stop histories with injected interrupts, every door into a damaged program under seeded slice schedules, diagnostic-range invariants against the listing snapshot"),
  "C18": dict(cat="exploration", ref="DESIGN.md section 5 C18",
